@@ -39,6 +39,16 @@ pub fn span_json<'tcx>(tcx: TyCtxt<'tcx>, sp: Span) -> J {
             rustc_span::ExpnKind::Root => "root".to_string(),
         };
         v.push(("exp", J::s(name)));
+        // the whole macro backtrace, innermost first (e.g. assert <- debug_assert)
+        let mut chain: Vec<J> = Vec::new();
+        for ed in sp.macro_backtrace().take(8) {
+            if let rustc_span::ExpnKind::Macro(_, sym) = ed.kind {
+                chain.push(J::s(format!("{}", sym)));
+            }
+        }
+        if chain.len() > 1 {
+            v.push(("exps", J::Arr(chain)));
+        }
     }
     J::obj(v)
 }
